@@ -58,6 +58,10 @@ def check_method(F, rep, name, ty, size):
                 seen["le"] += 1
             elif pnorm(t) == pnorm(want_be) and ("false", little) in st.facts:
                 seen["be"] += 1
+            elif size == 1 and t.args[4][0] is T.deref(T.payload(T.call("[T]::get", ("u8", "usize"), [data, off0]), "Some")):
+                # a single byte has no byte order: `*data.get(off)?` is the same read for every spec
+                seen["le"] += 1
+                seen["be"] += 1
             else:
                 okall = False
                 rep.bad("read-template", q + ":value", w,
